@@ -70,3 +70,156 @@ theorem exponent_of_ge_one (v : ℚ) (p : ℕ) (h1 : 1 ≤ qabs v) (h16 : qabs v
   rw [decade_of_ge_one h1]; ring
 
 end CC.Fmt
+
+namespace CC.Fmt
+
+theorem reprSci_true_small {x : ℚ} (h0 : 0 < x) (h4 : x < 1 / 10000) : reprSci x = true := by
+  unfold reprSci
+  simp only [ne_eq, ne_of_gt h0, not_false_eq_true, decide_true, Bool.true_and, Bool.or_eq_true,
+    decide_eq_true_eq]
+  left; exact h4
+
+/-- repr in exponent notation of a small value: `n = z + 2 + p` decimals are produced, the
+integer part is 0, and the leading-zero count of the rounded digits is `z`, or `z - 1` when
+the digits round up to the next power of ten -/
+theorem floatToString_sci_small {x : ℚ} (p : ℕ) (h0 : 0 < x) (h4 : x < 1 / 10000) :
+    floatToString p x =
+      { intPart := 0,
+        lz := if rhe (x * ((10 ^ (lzExact x + 2 + p) : ℕ) : ℚ)) = ((10 ^ (p + 2) : ℕ) : ℤ) then lzExact x - 1 else lzExact x,
+        postZero := false }
+    ∧ 4 ≤ lzExact x
+    ∧ ((10 ^ (p + 1) : ℕ) : ℤ) ≤ rhe (x * ((10 ^ (lzExact x + 2 + p) : ℕ) : ℚ))
+    ∧ rhe (x * ((10 ^ (lzExact x + 2 + p) : ℕ) : ℚ)) ≤ ((10 ^ (p + 2) : ℕ) : ℤ) := by
+  have h1 : x < 1 := lt_trans h4 (by norm_num)
+  obtain ⟨hz1, hz2⟩ := lzExact_spec h0 h1
+  set z := lzExact x with hz
+  have hz4 : 4 ≤ z := by
+    by_contra hlt
+    have : pow10 (-4) ≤ pow10 (-(z : ℤ) - 1) := pow10_le_pow10 (by omega)
+    have e4 : pow10 (-4) = 1 / 10000 := by simp [pow10_eq_zpow]; norm_num
+    rw [e4] at this; linarith
+  have hdec : decade x = -(z : ℤ) - 1 := decade_of_lt_one h1
+  have hn : (decade x).natAbs + 1 + p = z + 2 + p := by rw [hdec]; omega
+  -- bounds of x·10^n
+  have hN : ((10 ^ (z + 2 + p) : ℕ) : ℚ) = pow10 ((z + 2 + p : ℕ) : ℤ) := (pow10_natCast' _).symm
+  have eLo : pow10 (-(z : ℤ) - 1) * pow10 ((z + 2 + p : ℕ) : ℤ) = (((10 ^ (p + 1) : ℕ) : ℤ) : ℚ) := by
+    rw [← pow10_add, show -(z : ℤ) - 1 + ((z + 2 + p : ℕ) : ℤ) = ((p + 1 : ℕ) : ℤ) by push_cast; ring, pow10_natCast']
+    push_cast; rfl
+  have eHi : pow10 (-(z : ℤ)) * pow10 ((z + 2 + p : ℕ) : ℤ) = (((10 ^ (p + 2) : ℕ) : ℤ) : ℚ) := by
+    rw [← pow10_add, show -(z : ℤ) + ((z + 2 + p : ℕ) : ℤ) = ((p + 2 : ℕ) : ℤ) by push_cast; ring, pow10_natCast']
+    push_cast; rfl
+  have hP := pow10_pos ((z + 2 + p : ℕ) : ℤ)
+  have hXlo : (((10 ^ (p + 1) : ℕ) : ℤ) : ℚ) ≤ x * ((10 ^ (z + 2 + p) : ℕ) : ℚ) := by
+    rw [hN, ← eLo]; exact mul_le_mul_of_nonneg_right hz1 (le_of_lt hP)
+  have hXhi : x * ((10 ^ (z + 2 + p) : ℕ) : ℚ) ≤ (((10 ^ (p + 2) : ℕ) : ℤ) : ℚ) := by
+    rw [hN, ← eHi]; exact le_of_lt (mul_lt_mul_of_pos_right hz2 hP)
+  have hKlo := le_rhe_of_le hXlo
+  have hKhi := rhe_le_of_le hXhi
+  refine ⟨?_, hz4, hKlo, hKhi⟩
+  set K := rhe (x * ((10 ^ (z + 2 + p) : ℕ) : ℚ)) with hK
+  have hK0 : 0 ≤ K := le_trans (by positivity) hKlo
+  have hKnat : ((K.toNat : ℕ) : ℤ) = K := Int.toNat_of_nonneg hK0
+  have hKlo' : 10 ^ (p + 1) ≤ K.toNat := by exact_mod_cast (hKnat ▸ hKlo)
+  have hKhi' : K.toNat ≤ 10 ^ (p + 2) := by exact_mod_cast (hKnat ▸ hKhi)
+  have hlt : K.toNat < 10 ^ (z + 2 + p) := by
+    have : 10 ^ (p + 2) < 10 ^ (z + 2 + p) := Nat.pow_lt_pow_right (by norm_num) (by omega)
+    omega
+  have hpos : 0 < K.toNat := lt_of_lt_of_le (by positivity) hKlo'
+  unfold floatToString
+  rw [reprSci_true_small h0 h4]
+  simp only [↓reduceIte, hn, ← hK, Nat.div_eq_of_lt hlt, Nat.mod_eq_of_lt hlt, Nat.pos_iff_ne_zero.mp hpos]
+  congr 1
+  by_cases hc : K = ((10 ^ (p + 2) : ℕ) : ℤ)
+  · rw [if_pos hc]
+    have : K.toNat = 10 ^ (p + 2) := by
+      have h' : ((K.toNat : ℕ) : ℤ) = ((10 ^ (p + 2) : ℕ) : ℤ) := by rw [hKnat, hc]
+      exact_mod_cast h'
+    rw [this, numDigits_eq_of_bounds (k := p + 3) (by omega) (by simp) (Nat.pow_lt_pow_right (by norm_num) (by omega))]
+    omega
+  · rw [if_neg hc]
+    have hne : K.toNat ≠ 10 ^ (p + 2) := by
+      intro h; apply hc; rw [← hKnat, h]
+    have : K.toNat < 10 ^ (p + 2) := lt_of_le_of_ne hKhi' hne
+    rw [numDigits_eq_of_bounds (k := p + 2) (by omega) (by simpa using hKlo') this]
+    omega
+
+end CC.Fmt
+
+namespace CC.Fmt
+
+theorem pow10_neg4 : pow10 (-4) = 1 / 10000 := by simp [pow10_eq_zpow]; norm_num
+
+/-- the second call of `_float_to_string` in `exponent`, on the rounded value
+`R / 10^(z+p)` with a `p`-digit `R` (or `R = 10^p` after a carry), `z ≥ 4`: the digits are
+exact, the leading-zero count is `z` (or `z - 1` after the carry) -/
+theorem floatToString_rounded {z p : ℕ} (hz : 4 ≤ z) (hp : 1 ≤ p) {R : ℤ}
+    (hlo : ((10 ^ (p - 1) : ℕ) : ℤ) ≤ R) (hhi : R ≤ ((10 ^ p : ℕ) : ℤ)) :
+    floatToString p ((R : ℚ) / pow10 ((z + p : ℕ) : ℤ)) =
+      { intPart := 0, lz := if R = ((10 ^ p : ℕ) : ℤ) then z - 1 else z, postZero := false } := by
+  have hD := pow10_pos ((z + p : ℕ) : ℤ)
+  have cP : (((10 ^ p : ℕ) : ℤ) : ℚ) = pow10 (p : ℤ) := by rw [pow10_natCast']; push_cast; rfl
+  have cP1 : (((10 ^ (p - 1) : ℕ) : ℤ) : ℚ) = pow10 ((p - 1 : ℕ) : ℤ) := by rw [pow10_natCast']; push_cast; rfl
+  have hRlo : pow10 ((p - 1 : ℕ) : ℤ) ≤ (R : ℚ) := by rw [← cP1]; exact_mod_cast hlo
+  have hRhi : (R : ℚ) ≤ pow10 (p : ℤ) := by rw [← cP]; exact_mod_cast hhi
+  have eLo : pow10 (-(z : ℤ) - 1) * pow10 ((z + p : ℕ) : ℤ) = pow10 ((p - 1 : ℕ) : ℤ) := by
+    rw [← pow10_add]; congr 1; push_cast; omega
+  have eHi : pow10 (-(z : ℤ)) * pow10 ((z + p : ℕ) : ℤ) = pow10 (p : ℤ) := by
+    rw [← pow10_add]; congr 1; push_cast; omega
+  have hylo : pow10 (-(z : ℤ) - 1) ≤ (R : ℚ) / pow10 ((z + p : ℕ) : ℤ) := by
+    rw [le_div_iff₀ hD, eLo]; exact hRlo
+  by_cases hc : R = ((10 ^ p : ℕ) : ℤ)
+  · rw [if_pos hc]
+    have hy : (R : ℚ) / pow10 ((z + p : ℕ) : ℤ) = pow10 (-(z : ℤ)) := by
+      rw [hc, cP, div_eq_iff (ne_of_gt hD), eHi]
+    rw [hy]
+    have hlz : lzExact (pow10 (-(z : ℤ))) = z - 1 := by
+      apply lzExact_unique
+      · rw [show -((z - 1 : ℕ) : ℤ) - 1 = -(z : ℤ) by omega]
+      · exact pow10_lt_pow10 (by omega)
+    have hup : pow10 (-(z : ℤ)) < 1 := by
+      have : pow10 (-(z : ℤ)) < pow10 0 := pow10_lt_pow10 (by omega)
+      rwa [pow10_zero] at this
+    by_cases hz4 : z = 4
+    · have e : pow10 (-(z : ℤ)) = 1 / 10000 := by rw [hz4]; exact pow10_neg4
+      have := floatToString_small p (le_of_eq e.symm) hup
+      rw [this, hlz]
+    · have hsmall : pow10 (-(z : ℤ)) < 1 / 10000 := by
+        rw [← pow10_neg4]; exact pow10_lt_pow10 (by omega)
+      obtain ⟨hfs, _, _, _⟩ := floatToString_sci_small p (pow10_pos _) hsmall
+      rw [hfs, hlz]
+      have hexact : pow10 (-(z : ℤ)) * ((10 ^ (z - 1 + 2 + p) : ℕ) : ℚ) = (((10 ^ (p + 1) : ℕ) : ℤ) : ℚ) := by
+        rw [← pow10_natCast', ← pow10_add,
+          show -(z : ℤ) + ((z - 1 + 2 + p : ℕ) : ℤ) = ((p + 1 : ℕ) : ℤ) by push_cast; omega, pow10_natCast']
+        push_cast; rfl
+      rw [hexact, rhe_intCast]
+      have hne : ((10 ^ (p + 1) : ℕ) : ℤ) ≠ ((10 ^ (p + 2) : ℕ) : ℤ) := by
+        have : (10 : ℕ) ^ (p + 1) < 10 ^ (p + 2) := Nat.pow_lt_pow_right (by norm_num) (by omega)
+        exact_mod_cast (ne_of_lt this)
+      rw [if_neg hne]
+  · rw [if_neg hc]
+    have hRlt : (R : ℚ) < pow10 (p : ℤ) := by
+      rw [← cP]; exact_mod_cast (lt_of_le_of_ne hhi hc)
+    have hyhi : (R : ℚ) / pow10 ((z + p : ℕ) : ℤ) < pow10 (-(z : ℤ)) := by
+      rw [div_lt_iff₀ hD, eHi]; exact hRlt
+    have hy0 : 0 < (R : ℚ) / pow10 ((z + p : ℕ) : ℤ) := lt_of_lt_of_le (pow10_pos _) hylo
+    have hsmall : (R : ℚ) / pow10 ((z + p : ℕ) : ℤ) < 1 / 10000 := by
+      have : pow10 (-(z : ℤ)) ≤ pow10 (-4) := pow10_le_pow10 (by omega)
+      rw [pow10_neg4] at this; linarith
+    have hlz : lzExact ((R : ℚ) / pow10 ((z + p : ℕ) : ℤ)) = z := lzExact_unique hylo hyhi
+    obtain ⟨hfs, _, _, _⟩ := floatToString_sci_small p hy0 hsmall
+    rw [hfs, hlz]
+    have hexact : (R : ℚ) / pow10 ((z + p : ℕ) : ℤ) * ((10 ^ (z + 2 + p) : ℕ) : ℚ) = ((R * 100 : ℤ) : ℚ) := by
+      rw [← pow10_natCast', show ((z + 2 + p : ℕ) : ℤ) = ((z + p : ℕ) : ℤ) + 2 by push_cast; ring, pow10_add]
+      have e2 : pow10 2 = 100 := by simp [pow10_eq_zpow]; norm_num
+      rw [e2]
+      have hD0 : pow10 ((z + p : ℕ) : ℤ) ≠ 0 := ne_of_gt hD
+      rw [Int.cast_mul, Int.cast_ofNat]
+      field_simp
+    rw [hexact, rhe_intCast]
+    have hne : R * 100 ≠ ((10 ^ (p + 2) : ℕ) : ℤ) := by
+      intro h; apply hc
+      have : ((10 ^ (p + 2) : ℕ) : ℤ) = ((10 ^ p : ℕ) : ℤ) * 100 := by push_cast; ring
+      rw [this] at h; omega
+    rw [if_neg hne]
+
+end CC.Fmt
